@@ -18,86 +18,154 @@
   unless the chunk-overflow defect of the V1 writer duplicated a key — see `Overflow` below).
 -/
 import Hv.Storage.MigrateLemmas
+import Hv.Storage.MigrateV2
+
+set_option linter.unusedSectionVars false
 
 namespace Hv.C23
 open Hv.Migrate
 
-def NoEmptyKey (fo : Folder) : Prop := ∀ s ∈ allSegs fo, s.key ≠ ""
+def NoEmptyKey {α : Type} [DecidableEq α] [Inhabited α] (fo : Folder α) : Prop := ∀ s ∈ allSegs fo, s.key ≠ default
 
-/-- The full-strength statement, for given migrator facts. -/
+/-- The full-strength statement, for given migrator facts: for every type of keys / payloads / names, every V2
+    codec that is lawful on the records and name at hand. -/
 structure Holds (cfg : MCfg) : Prop where
   /-- a successful live migration: the file loads to what the legacy engine can load, under the
       name from the meta file; to exactly the legacy result when the keys are distinct -/
-  preserves : ∀ {File : Type} (v : V2 File), v.Lawful → ∀ (o : Opts) (nm : String) (d : Disk File),
-      d.hyd = none → o.dryRun = false → NoEmptyKey d.v1 → allSegs d.v1 ≠ [] →
+  preserves : ∀ {α : Type} [DecidableEq α] [Inhabited α] {File : Type} (v : V2 α File) (okE : Entry α → Prop) (okN : α → Prop),
+      v.Lawful okE okN → ∀ (o : Opts) (nm : α) (d : Disk α File),
+      d.hyd = none → o.dryRun = false → okN nm → (∀ s ∈ allSegs d.v1, okE (s.key, s.data)) →
+      NoEmptyKey d.v1 → allSegs d.v1 ≠ [] →
       (migrate cfg v o .none nm d).1 = .success ∧
       ∃ f, (migrate cfg v o .none nm d).2.hyd = some f ∧ LoadsV1 d.v1 (v.loadMap f) ∧ v.nameOf f = nm ∧
         (UniqueKeys d.v1 → ∀ m, LoadsV1 d.v1 m → m = v.loadMap f)
-  /-- a failed migration (whatever step failed) leaves the disk exactly as it was: the V1 files
-      untouched and no .hyd file behind -/
-  failureAtomic : ∀ {File : Type} (v : V2 File) (o : Opts) (ft : Fault) (nm : String) (d : Disk File),
-      d.hyd = none → ∀ ph, (migrate cfg v o ft nm d).1 = .failed ph → (migrate cfg v o ft nm d).2 = d
+  /-- a failed migration (whatever step failed, whatever was at the target path) leaves the disk exactly as it
+      was: the V1 files untouched, no .hyd file behind — and a .hyd file that was already there still there -/
+  failureAtomic : ∀ {α : Type} [DecidableEq α] [Inhabited α] {File : Type} (v : V2 α File) (o : Opts) (ft : Fault)
+      (nm : α) (d : Disk α File),
+      ∀ ph, (migrate cfg v o ft nm d).1 = .failed ph → (migrate cfg v o ft nm d).2 = d
   /-- V1 files are removed only with `DeleteOld`, and only after the .hyd file was written
       (and verified, when asked) — or when the swamp has no records at all -/
-  deleteLast : ∀ {File : Type} (v : V2 File) (o : Opts) (ft : Fault) (nm : String) (d : Disk File),
-      d.hyd = none → (migrate cfg v o ft nm d).2.v1 ≠ d.v1 →
+  deleteLast : ∀ {α : Type} [DecidableEq α] [Inhabited α] {File : Type} (v : V2 α File) (o : Opts) (ft : Fault)
+      (nm : α) (d : Disk α File),
+      (migrate cfg v o ft nm d).2.v1 ≠ d.v1 →
       o.deleteOld = true ∧ o.dryRun = false ∧
-      (((migrate cfg v o ft nm d).1 = .success ∧
+      (((migrate cfg v o ft nm d).1 = .success ∧ d.hyd = none ∧
           ∃ f, (migrate cfg v o ft nm d).2.hyd = some f ∧
                (o.verify = true → verifyOk cfg v f (dedupe cfg (allSegs d.v1)) = true)) ∨
        ((migrate cfg v o ft nm d).1 = .skippedEmpty ∧ allSegs d.v1 = []))
+  /-- when the meta file — the only place the swamp name is stored — cannot be read, no .hyd file without
+      the name is produced (the name would be lost for good once `DeleteOld` removes the meta file) -/
+  nameNotDropped : ∀ {α : Type} [DecidableEq α] [Inhabited α] {File : Type} (v : V2 α File) (o : Opts)
+      (nm : α) (d : Disk α File),
+      (migrate cfg v o .metaRead nm d).2.hyd = d.hyd
   /-- a dry run changes nothing -/
-  dryRunNoop : ∀ {File : Type} (v : V2 File) (o : Opts) (ft : Fault) (nm : String) (d : Disk File),
+  dryRunNoop : ∀ {α : Type} [DecidableEq α] [Inhabited α] {File : Type} (v : V2 α File) (o : Opts) (ft : Fault)
+      (nm : α) (d : Disk α File),
       o.dryRun = true → (migrate cfg v o ft nm d).2 = d
+  /-- a .hyd file that is already at the target path (an earlier run, a V2 engine that has been writing to it
+      since, a planted file) is never appended to, replaced or removed; no live run reports success next to it -/
+  existingKept : ∀ {α : Type} [DecidableEq α] [Inhabited α] {File : Type} (v : V2 α File) (o : Opts) (ft : Fault)
+      (nm : α) (d : Disk α File) (f : File),
+      d.hyd = some f → (migrate cfg v o ft nm d).2.hyd = some f ∧
+        ((migrate cfg v o ft nm d).1 = .success → o.dryRun = true)
+  /-- no record is dropped silently: a live run succeeds only if the V2 writer accepted every record
+      (a V1 record with a key the format cannot carry — longer than 65535 bytes — fails the swamp instead) -/
+  noSilentDrop : ∀ {α : Type} [DecidableEq α] [Inhabited α] {File : Type} (v : V2 α File) (o : Opts) (ft : Fault)
+      (nm : α) (d : Disk α File),
+      (migrate cfg v o ft nm d).1 = .success → o.dryRun = false →
+      ∀ e ∈ dedupe cfg (allSegs d.v1), v.accepts e = true
 
 /-! ### The migrator as extracted (write, then verify, then delete; last segment wins) -/
 
-theorem no_empty_any (fo : Folder) (h : NoEmptyKey fo) : (allSegs fo).any (fun s => s.key == "") = false := by
+section
+variable {α : Type} [DecidableEq α] [Inhabited α] {File : Type}
+
+theorem no_empty_any (fo : Folder α) (h : NoEmptyKey fo) : (allSegs fo).any (fun s => s.key == default) = false := by
   rw [List.any_eq_false]
   intro s hs
   simpa using h s hs
 
-theorem verify_good {File : Type} (v : V2 File) (hv : v.Lawful) (nm : String) (es : List Entry) :
+theorem verify_good (v : V2 α File) (okE : Entry α → Prop) (okN : α → Prop) (hv : v.Lawful okE okN) (nm : α)
+    (es : List (Entry α)) (hn : okN nm) (he : ∀ e ∈ es, okE e) (hnd : (es.map Prod.fst).Nodup) :
     verifyOk good v (v.write nm es) es = true := by
   simp only [verifyOk, good, Bool.not_false, Bool.true_or, Bool.and_true, List.all_eq_true]
-  intro e he
-  rw [hv.keys]
-  exact lookup_isSome_of_mem es e he
+  intro e hm
+  rw [hv.keys nm es e.1 hn he hnd]
+  exact lookup_isSome_of_mem es e hm
 
-theorem deleteV1_hyd {File : Type} (ft : Fault) (d : Disk File) : (deleteV1 ft d).hyd = d.hyd := by
+theorem deleteV1_hyd (ft : Fault) (d : Disk α File) : (deleteV1 ft d).hyd = d.hyd := by
   simp only [deleteV1]
   split
   · split <;> rfl
   · rfl
+  · rfl
 
-theorem migrate_good_eq {File : Type} (v : V2 File) (o : Opts) (ft : Fault) (nm : String) (d : Disk File) :
+theorem migrate_good_eq (v : V2 α File) (o : Opts) (ft : Fault) (nm : α) (d : Disk α File) :
     migrate good v o ft nm d = migrateGood v o ft nm d := by
-  simp only [migrate, migrateGood, good, Bool.true_and]
-  cases ft with
-  | write st => cases st <;> rfl
-  | _ => rfl
+  obtain ⟨v1, fol, hyd⟩ := d
+  cases hyd with
+  | some f => simp [migrate, migrateGood, good]
+  | none =>
+    simp only [migrate, migrateGood, good, Bool.true_and, Option.isSome_none, Bool.false_eq_true, if_false, if_true]
+    generalize (if ft = Fault.metaRead then default else nm) = nm'
+    by_cases hn : v.acceptsName nm' = true
+    · simp only [hn, if_true, Option.isNone_some, Bool.or_false, Bool.not_true]
+      cases ft with
+      | write st => cases st <;> simp [Fault.isWrite]
+      | _ => simp [Fault.isWrite]
+    · simp only [hn, if_false, Bool.false_eq_true, Option.isNone_none, Bool.or_true, Bool.true_or, if_true]
+      simp
 
-theorem migrate_preserves : ∀ {File : Type} (v : V2 File), v.Lawful → ∀ (o : Opts) (nm : String) (d : Disk File),
-    d.hyd = none → o.dryRun = false → NoEmptyKey d.v1 → allSegs d.v1 ≠ [] →
+/-- the good migrator next to a file that is already there: it does nothing but report -/
+theorem migrateGood_existing (v : V2 α File) (o : Opts) (ft : Fault) (nm : α) (d : Disk α File) (f : File)
+    (hf : d.hyd = some f) :
+    (migrateGood v o ft nm d).2.hyd = some f ∧ ((migrateGood v o ft nm d).1 = .success → o.dryRun = true) ∧
+    ((migrateGood v o ft nm d).2.v1 ≠ d.v1 → (migrateGood v o ft nm d).1 = .skippedEmpty) ∧
+    (∀ ph, (migrateGood v o ft nm d).1 = .failed ph → (migrateGood v o ft nm d).2 = d) := by
+  simp only [migrateGood]
+  by_cases h1 : (ft = Fault.load || ft = Fault.metaRead || (allSegs d.v1).any fun s => s.key == default) = true
+  · simp [h1, hf]
+  by_cases h2 : (dedupe good (allSegs d.v1)).isEmpty = true
+  · simp only [h1, h2, if_true, Bool.false_eq_true, if_false]
+    refine ⟨?_, by simp, by simp, by simp⟩
+    split
+    · rw [deleteV1_hyd]; exact hf
+    · exact hf
+  by_cases h3 : o.dryRun = true
+  · simp [h1, h2, h3, hf]
+  · simp [h1, h2, h3, hf]
+
+theorem migrate_preserves (v : V2 α File) (okE : Entry α → Prop) (okN : α → Prop) (hv : v.Lawful okE okN)
+    (o : Opts) (nm : α) (d : Disk α File) (h0 : d.hyd = none) (hdry : o.dryRun = false) (hn : okN nm)
+    (hok : ∀ s ∈ allSegs d.v1, okE (s.key, s.data)) (hne : NoEmptyKey d.v1) (hseg : allSegs d.v1 ≠ []) :
     (migrate good v o .none nm d).1 = .success ∧
     ∃ f, (migrate good v o .none nm d).2.hyd = some f ∧ LoadsV1 d.v1 (v.loadMap f) ∧ v.nameOf f = nm ∧
       (UniqueKeys d.v1 → ∀ m, LoadsV1 d.v1 m → m = v.loadMap f) := by
-  intro File v hv o nm d _ hdry hne hseg
   have hany := no_empty_any d.v1 hne
   have hemp : (dedupe good (allSegs d.v1)).isEmpty = false := by
     rw [dedupe_isEmpty]; simpa [List.isEmpty_iff] using hseg
-  have hver := verify_good v hv nm (dedupe good (allSegs d.v1))
   have hdd := dedupe_last good rfl (allSegs d.v1)
+  have hes : ∀ e ∈ dedupe good (allSegs d.v1), okE e := by
+    intro e he
+    obtain ⟨s, hs, rfl⟩ := mem_dedupe good _ e he
+    exact hok s hs
+  have hacc : (dedupe good (allSegs d.v1)).any (fun e => !v.accepts e) = false := by
+    rw [List.any_eq_false]
+    intro e he
+    simp [hv.acc e (hes e he)]
+  have haccN := hv.accN nm hn
+  have hver := verify_good v okE okN hv nm (dedupe good (allSegs d.v1)) hn hes hdd.1
   have hload : v.loadMap (v.write nm (dedupe good (allSegs d.v1))) = loadV1In d.v1 := by
     funext k
-    rw [hv.load nm _ hdd.1 k, hdd.2 k]; rfl
+    rw [hv.load nm _ hn hes hdd.1 k, hdd.2 k]; rfl
   have hres : migrate good v o .none nm d =
       (.success, if o.deleteOld then deleteV1 .none { d with hyd := some (v.write nm (dedupe good (allSegs d.v1))) }
                  else { d with hyd := some (v.write nm (dedupe good (allSegs d.v1))) }) := by
     rw [migrate_good_eq]
-    simp [migrateGood, hany, hemp, hdry, hver, Fault.isWrite]
+    simp [migrateGood, hany, hemp, hdry, hver, Fault.isWrite, h0, hacc, haccN]
   rw [hres]
-  refine ⟨rfl, v.write nm (dedupe good (allSegs d.v1)), ?_, ?_, hv.name _ _, ?_⟩
+  refine ⟨rfl, v.write nm (dedupe good (allSegs d.v1)), ?_, ?_, hv.name _ _ hn hes, ?_⟩
   · simp only
     split
     · rw [deleteV1_hyd]
@@ -106,81 +174,88 @@ theorem migrate_preserves : ∀ {File : Type} (v : V2 File), v.Lawful → ∀ (o
   · intro hu m hm
     rw [loadsV1_unique d.v1 hu m hm, hload]
 
-theorem migrate_failure_atomic : ∀ {File : Type} (v : V2 File) (o : Opts) (ft : Fault) (nm : String) (d : Disk File),
-    d.hyd = none → ∀ ph, (migrate good v o ft nm d).1 = .failed ph → (migrate good v o ft nm d).2 = d := by
-  intro File v o ft nm d hh ph
-  obtain ⟨v1, fol, hyd⟩ := d
-  simp only at hh
-  subst hh
+theorem migrate_failure_atomic (v : V2 α File) (o : Opts) (ft : Fault) (nm : α) (d : Disk α File)
+    (ph : String) : (migrate good v o ft nm d).1 = .failed ph → (migrate good v o ft nm d).2 = d := by
   rw [migrate_good_eq]
-  simp only [migrateGood]
+  cases hh : d.hyd with
+  | some f => exact (migrateGood_existing v o ft nm d f hh).2.2.2 ph
+  | none =>
+  simp only [migrateGood, hh]
   by_cases hl : ft = Fault.load
   · simp [hl]
-  by_cases ha : ((allSegs v1).any fun s => s.key == "") = true
+  by_cases hm : ft = Fault.metaRead
+  · simp [hm]
+  by_cases ha : ((allSegs d.v1).any fun s => s.key == default) = true
   · simp [ha]
-  by_cases h2 : (dedupe good (allSegs v1)).isEmpty = true
-  · simp [hl, ha, h2]
+  by_cases h2 : (dedupe good (allSegs d.v1)).isEmpty = true
+  · simp [hl, hm, ha, h2]
   by_cases h3 : o.dryRun = true
-  · simp [hl, ha, h2, h3]
-  by_cases h4 : ft.isWrite = true
-  · simp [hl, ha, h2, h3, h4]
-  by_cases hv : o.verify = true
-  · by_cases hfv : ft = Fault.verify
-    · subst hfv; simp [ha, h2, h3, hv, Fault.isWrite]
-    · by_cases hok : verifyOk good v (v.write nm (dedupe good (allSegs v1))) (dedupe good (allSegs v1)) = true
-      · simp [hl, ha, h2, h3, h4, hv, hfv, hok]
-      · simp [hl, ha, h2, h3, h4, hv, hfv, hok]
-  · simp [hl, ha, h2, h3, h4, hv]
+  · simp [hl, hm, ha, h2, h3]
+  by_cases h4 : (ft.isWrite || !v.acceptsName nm || (dedupe good (allSegs d.v1)).any fun e => !v.accepts e) = true
+  · simp only [hm, if_false] at h4 ⊢
+    simp [hl, ha, h2, h3, h4]
+  by_cases h5 : (o.verify && (decide (ft = Fault.verify) ||
+      !verifyOk good v (v.write nm (dedupe good (allSegs d.v1))) (dedupe good (allSegs d.v1)))) = true
+  · simp only [hm, if_false] at h4 h5 ⊢
+    simp [hl, ha, h2, h3, h4, h5]
+  · simp only [hm, if_false] at h4 h5 ⊢
+    simp [hl, ha, h2, h3, h4, h5]
 
-theorem migrate_dryRun_noop : ∀ {File : Type} (v : V2 File) (o : Opts) (ft : Fault) (nm : String) (d : Disk File),
-    o.dryRun = true → (migrate good v o ft nm d).2 = d := by
-  intro File v o ft nm d hdry
+theorem migrate_dryRun_noop (v : V2 α File) (o : Opts) (ft : Fault) (nm : α) (d : Disk α File)
+    (hdry : o.dryRun = true) : (migrate good v o ft nm d).2 = d := by
   rw [migrate_good_eq]
   simp only [migrateGood, hdry]
   by_cases hl : ft = Fault.load
   · simp [hl]
-  by_cases ha : ((allSegs d.v1).any fun s => s.key == "") = true
+  by_cases hm : ft = Fault.metaRead
+  · simp [hm]
+  by_cases ha : ((allSegs d.v1).any fun s => s.key == default) = true
   · simp [ha]
   by_cases h2 : (dedupe good (allSegs d.v1)).isEmpty = true
-  · simp [hl, ha, h2]
-  · simp [hl, ha, h2]
+  · simp [hl, hm, ha, h2]
+  · simp [hl, hm, ha, h2]
 
-theorem migrate_delete_last : ∀ {File : Type} (v : V2 File) (o : Opts) (ft : Fault) (nm : String) (d : Disk File),
-    d.hyd = none → (migrate good v o ft nm d).2.v1 ≠ d.v1 →
+theorem migrate_delete_last (v : V2 α File) (o : Opts) (ft : Fault) (nm : α) (d : Disk α File) :
+    (migrate good v o ft nm d).2.v1 ≠ d.v1 →
     o.deleteOld = true ∧ o.dryRun = false ∧
-    (((migrate good v o ft nm d).1 = .success ∧
+    (((migrate good v o ft nm d).1 = .success ∧ d.hyd = none ∧
         ∃ f, (migrate good v o ft nm d).2.hyd = some f ∧
              (o.verify = true → verifyOk good v f (dedupe good (allSegs d.v1)) = true)) ∨
      ((migrate good v o ft nm d).1 = .skippedEmpty ∧ allSegs d.v1 = [])) := by
-  intro File v o ft nm d _
   rw [migrate_good_eq]
   simp only [migrateGood]
+  generalize hnm : (if ft = Fault.metaRead then default else nm) = nm'
   by_cases hl : ft = Fault.load
   · simp [hl]
-  by_cases ha : ((allSegs d.v1).any fun s => s.key == "") = true
+  by_cases hm : ft = Fault.metaRead
+  · simp [hm]
+  by_cases ha : ((allSegs d.v1).any fun s => s.key == default) = true
   · simp [ha]
   by_cases hd : o.deleteOld = true
   · by_cases h3 : o.dryRun = true
     · by_cases h2 : (dedupe good (allSegs d.v1)).isEmpty = true
-      · simp [hl, ha, h2, h3, hd]
-      · simp [hl, ha, h2, h3]
+      · simp [hl, hm, ha, h2, h3, hd]
+      · simp [hl, hm, ha, h2, h3]
     have hr' : o.dryRun = false := by simpa using h3
     by_cases h2 : (dedupe good (allSegs d.v1)).isEmpty = true
     · have hnil : allSegs d.v1 = [] := by
         rw [dedupe_isEmpty] at h2; simpa [List.isEmpty_iff] using h2
       intro _
       refine ⟨hd, hr', Or.inr ⟨?_, hnil⟩⟩
-      simp [hl, ha, h2]
-    by_cases h4 : ft.isWrite = true
-    · simp [hl, ha, h2, h3, h4]
+      simp [hl, hm, ha, h2]
+    by_cases hx : d.hyd.isSome = true
+    · simp [hl, hm, ha, h2, h3, hx]
+    have hx' : d.hyd = none := by simpa using hx
+    by_cases h4 : (ft.isWrite || !v.acceptsName nm' || (dedupe good (allSegs d.v1)).any fun e => !v.accepts e) = true
+    · simp [hl, hm, ha, h2, h3, hx, h4]
     by_cases h5 : (o.verify && (decide (ft = Fault.verify) ||
-        !verifyOk good v (v.write nm (dedupe good (allSegs d.v1))) (dedupe good (allSegs d.v1)))) = true
-    · simp only [hl, ha, h2, h3, h4, h5]; simp
+        !verifyOk good v (v.write nm' (dedupe good (allSegs d.v1))) (dedupe good (allSegs d.v1)))) = true
+    · simp only [hl, hm, ha, h2, h3, hx, h4, h5]; simp
     · intro _
       refine ⟨hd, hr', Or.inl ?_⟩
-      simp only [hl, ha, h2, h3, h4, h5, hd]
+      simp only [hl, hm, ha, h2, h3, hx, h4, h5, hd]
       simp only [decide_false, Bool.false_or, Bool.false_eq_true, if_false, if_true, true_and]
-      refine ⟨v.write nm (dedupe good (allSegs d.v1)), ?_, ?_⟩
+      refine ⟨hx', v.write nm' (dedupe good (allSegs d.v1)), ?_, ?_⟩
       · rw [deleteV1_hyd]
       · intro hver
         simp only [hver, Bool.true_and, Bool.or_eq_true, decide_eq_true_eq, Bool.not_eq_true',
@@ -189,25 +264,87 @@ theorem migrate_delete_last : ∀ {File : Type} (v : V2 File) (o : Opts) (ft : F
   · -- without DeleteOld nothing is ever removed
     have hd' : o.deleteOld = false := by simpa using hd
     by_cases h2 : (dedupe good (allSegs d.v1)).isEmpty = true
-    · simp [hl, ha, h2, hd']
+    · simp [hl, hm, ha, h2, hd']
     by_cases h3 : o.dryRun = true
-    · simp [hl, ha, h2, h3]
-    by_cases h4 : ft.isWrite = true
-    · simp [hl, ha, h2, h3, h4]
+    · simp [hl, hm, ha, h2, h3]
+    by_cases hx : d.hyd.isSome = true
+    · simp [hl, hm, ha, h2, h3, hx]
+    by_cases h4 : (ft.isWrite || !v.acceptsName nm' || (dedupe good (allSegs d.v1)).any fun e => !v.accepts e) = true
+    · simp [hl, hm, ha, h2, h3, hx, h4]
     by_cases h5 : (o.verify && (decide (ft = Fault.verify) ||
-        !verifyOk good v (v.write nm (dedupe good (allSegs d.v1))) (dedupe good (allSegs d.v1)))) = true
-    · simp only [hl, ha, h2, h3, h4, h5]; simp
-    · simp only [hl, ha, h2, h3, h4, h5, hd']; simp
+        !verifyOk good v (v.write nm' (dedupe good (allSegs d.v1))) (dedupe good (allSegs d.v1)))) = true
+    · simp only [hl, hm, ha, h2, h3, hx, h4, h5]; simp
+    · simp only [hl, hm, ha, h2, h3, hx, h4, h5, hd']; simp
+
+theorem migrate_existing_kept (v : V2 α File) (o : Opts) (ft : Fault) (nm : α) (d : Disk α File) (f : File)
+    (hf : d.hyd = some f) :
+    (migrate good v o ft nm d).2.hyd = some f ∧ ((migrate good v o ft nm d).1 = .success → o.dryRun = true) := by
+  rw [migrate_good_eq]
+  have := migrateGood_existing v o ft nm d f hf
+  exact ⟨this.1, this.2.1⟩
+
+theorem migrate_no_silent_drop (v : V2 α File) (o : Opts) (ft : Fault) (nm : α) (d : Disk α File) :
+    (migrate good v o ft nm d).1 = .success → o.dryRun = false →
+    ∀ e ∈ dedupe good (allSegs d.v1), v.accepts e = true := by
+  rw [migrate_good_eq]
+  simp only [migrateGood]
+  intro hs hdry
+  by_cases h1 : (ft = Fault.load || ft = Fault.metaRead || (allSegs d.v1).any fun s => s.key == default) = true
+  · simp [h1] at hs
+  by_cases h2 : (dedupe good (allSegs d.v1)).isEmpty = true
+  · simp [h1, h2] at hs
+  by_cases hx : d.hyd.isSome = true
+  · simp [h1, h2, hdry, hx] at hs
+  by_cases h4 : (ft.isWrite || !v.acceptsName (if ft = Fault.metaRead then default else nm) ||
+      (dedupe good (allSegs d.v1)).any fun e => !v.accepts e) = true
+  · simp [h1, h2, hdry, hx, h4] at hs
+  · intro e he
+    simp only [Bool.or_eq_true, not_or, Bool.not_eq_true, List.any_eq_false] at h4
+    have := h4.2 e he
+    simpa using this
+
+end
+
+theorem migrate_name_not_dropped {α : Type} [DecidableEq α] [Inhabited α] {File : Type} (v : V2 α File) (o : Opts)
+    (nm : α) (d : Disk α File) : (migrate good v o .metaRead nm d).2.hyd = d.hyd := by
+  rw [migrate_good_eq]
+  simp [migrateGood]
 
 theorem holds_good : Holds good :=
-  ⟨migrate_preserves, migrate_failure_atomic, migrate_delete_last, migrate_dryRun_noop⟩
+  ⟨fun v okE okN hv o nm d h1 h2 h3 h4 h5 h6 => migrate_preserves v okE okN hv o nm d h1 h2 h3 h4 h5 h6,
+   fun v o ft nm d ph => migrate_failure_atomic v o ft nm d ph,
+   fun v o ft nm d => migrate_delete_last v o ft nm d,
+   fun v o nm d => migrate_name_not_dropped v o nm d,
+   fun v o ft nm d h => migrate_dryRun_noop v o ft nm d h,
+   fun v o ft nm d f h => migrate_existing_kept v o ft nm d f h,
+   fun v o ft nm d h1 h2 => migrate_no_silent_drop v o ft nm d h1 h2⟩
+
+/-! ### With the V2 storage model of C01 in place of the assumption
+
+  `Hv.MigrateV2.storV2_lawful` proves `V2.Lawful` for the file the C01 writer model produces and the C01
+  `loadIndex` reads (via `Hv.Storage.loadIndex_runOps`, `replay_eq_specOf`, `find_specOf`).  So for byte-string
+  records the writer accepts (`okE`: non-empty key < 65536 bytes, payload ≤ 1 GiB) and a non-empty name < 65536
+  bytes, `preserves` needs no assumption about the V2 engine beyond a lawful block codec (snappy). -/
+theorem migrate_preserves_c01 (codec : Hv.Storage.Codec) (crc : Hv.Storage.Checksum) (o : Opts) (nm : Hv.MigrateV2.B)
+    (d : Disk Hv.MigrateV2.B Hv.MigrateV2.B) (h0 : d.hyd = none) (hdry : o.dryRun = false) (hn : Hv.MigrateV2.okN nm)
+    (hok : ∀ s ∈ allSegs d.v1, Hv.MigrateV2.okE (s.key, s.data)) (hseg : allSegs d.v1 ≠ []) :
+    let v := Hv.MigrateV2.storV2 codec crc
+    (migrate good v o .none nm d).1 = .success ∧
+    ∃ f, (migrate good v o .none nm d).2.hyd = some f ∧ LoadsV1 d.v1 (v.loadMap f) ∧ v.nameOf f = nm ∧
+      (UniqueKeys d.v1 → ∀ m, LoadsV1 d.v1 m → m = v.loadMap f) := by
+  have hne : NoEmptyKey d.v1 := by
+    intro s hs he
+    have := (hok s hs).1.1
+    simp only [Hv.MigrateV2.entOf, he] at this
+    exact absurd this (by decide)
+  exact migrate_preserves _ _ _ (Hv.MigrateV2.storV2_lawful codec crc) o nm d h0 hdry hn hok hne hseg
 
 /-! ### Non-vacuity: a two-chunk folder with a rewritten key, every option, every single failure -/
 
-def exFolder : Folder :=
+def exFolder : Folder String :=
   [("chunk-a", [⟨"k1", "v1"⟩, ⟨"k2", "v2"⟩]), ("chunk-b", [⟨"k3", "v3"⟩])]
 
-def exDisk : Disk (String × List Entry) := { v1 := exFolder, v1Folder := true, hyd := none }
+def exDisk : Disk String (String × List (Entry String)) := { v1 := exFolder, v1Folder := true, hyd := none }
 
 example : (migrate good idV2 ⟨true, true, false⟩ .none "s/r/n" exDisk).1 = .success := by decide
 example : (migrate good idV2 ⟨true, true, false⟩ .none "s/r/n" exDisk).2.v1 = [] := by decide
@@ -216,7 +353,8 @@ example : (migrate good idV2 ⟨true, true, false⟩ .verify "s/r/n" exDisk).2.v
 example : (migrate good idV2 ⟨true, true, false⟩ (.write 0) "s/r/n" exDisk).2.hyd = none := by decide
 example : (migrate good idV2 ⟨true, true, false⟩ (.unlink 1) "s/r/n" exDisk).2.v1 = [("chunk-b", [⟨"k3", "v3"⟩])] := by decide
 
-theorem idV2_lawful : idV2.Lawful := ⟨fun _ _ _ _ => rfl, fun _ _ => rfl, fun _ _ _ => rfl⟩
+theorem idV2_lawful {α : Type} [DecidableEq α] [Inhabited α] : (idV2 : V2 α _).Lawful (fun _ => True) (fun _ => True) :=
+  ⟨fun _ _ _ _ _ _ => rfl, fun _ _ _ _ => rfl, fun _ _ _ _ _ _ => rfl, fun _ _ => rfl, fun _ _ => rfl⟩
 
 /-! ### `verify_weaker` — an observation, not a violation of C23
 
@@ -237,14 +375,14 @@ theorem deleteFirst_loses_data :
 
 theorem refutes_deleteFirst : ¬ Holds deleteFirst := by
   intro h
-  have := h.failureAtomic idV2 ⟨true, true, false⟩ .verify "s/r/n" exDisk rfl "verify" (by decide)
+  have := h.failureAtomic idV2 ⟨true, true, false⟩ .verify "s/r/n" exDisk "verify" (by decide)
   have h2 : (migrate deleteFirst idV2 ⟨true, true, false⟩ .verify "s/r/n" exDisk).2.v1 = exDisk.v1 := by rw [this]
   exact absurd h2 (by decide)
 
 /-- keeping the *first* value of a key: differs from every legacy load when a chunk holds a key twice -/
 def dedupeFirst : MCfg := { good with dedupeLast := false }
 
-def dupFolder : Folder := [("chunk-a", [⟨"k", "old"⟩, ⟨"k", "new"⟩])]
+def dupFolder : Folder String := [("chunk-a", [⟨"k", "old"⟩, ⟨"k", "new"⟩])]
 
 theorem dedupeFirst_witness :
     (migrate dedupeFirst idV2 ⟨true, false, false⟩ .none "n" { v1 := dupFolder, v1Folder := true, hyd := none }).2.hyd
@@ -258,8 +396,9 @@ theorem legacy_loads_new (m : String → Option String) (h : LoadsV1 dupFolder m
 
 theorem refutes_dedupeFirst : ¬ Holds dedupeFirst := by
   intro h
-  have := h.preserves idV2 idV2_lawful ⟨true, false, false⟩ "n" { v1 := dupFolder, v1Folder := true, hyd := none }
-    rfl rfl (by intro s hs; simp [allSegs, dupFolder] at hs; rcases hs with rfl | rfl <;> decide) (by decide)
+  have := h.preserves (idV2 : V2 String _) _ _ idV2_lawful ⟨true, false, false⟩ "n" { v1 := dupFolder, v1Folder := true, hyd := none }
+    rfl rfl trivial (fun _ _ => trivial)
+    (by intro s hs; simp [allSegs, dupFolder] at hs; rcases hs with rfl | rfl <;> decide) (by decide)
   obtain ⟨_, f, hf, hl, _, _⟩ := this
   rw [dedupeFirst_witness] at hf
   cases hf
@@ -271,7 +410,7 @@ def keepHyd : MCfg := { good with removeOnVerifyFail := false }
 
 theorem refutes_keepHyd : ¬ Holds keepHyd := by
   intro h
-  have := h.failureAtomic idV2 ⟨true, false, false⟩ .verify "s/r/n" exDisk rfl "verify" (by decide)
+  have := h.failureAtomic idV2 ⟨true, false, false⟩ .verify "s/r/n" exDisk "verify" (by decide)
   have h2 : (migrate keepHyd idV2 ⟨true, false, false⟩ .verify "s/r/n" exDisk).2.hyd = exDisk.hyd := by rw [this]
   exact absurd h2 (by decide)
 
@@ -285,13 +424,13 @@ theorem keepPartial_leaves_file :
 
 theorem refutes_keepPartial : ¬ Holds keepPartial := by
   intro h
-  have := h.failureAtomic idV2 ⟨true, false, false⟩ (.write 0) "s/r/n" exDisk rfl "write" (by decide)
+  have := h.failureAtomic idV2 ⟨true, false, false⟩ (.write 0) "s/r/n" exDisk "write" (by decide)
   have h2 : (migrate keepPartial idV2 ⟨true, false, false⟩ (.write 0) "s/r/n" exDisk).2.hyd = exDisk.hyd := by rw [this]
   exact absurd h2 (by decide)
 
 /-- `_partial`: apart from that one failure point the whole statement holds for `keepPartial`:
     it differs from `good` only in what a stage-0 write failure leaves behind -/
-theorem keepPartial_partial {File : Type} (v : V2 File) (o : Opts) (ft : Fault) (nm : String) (d : Disk File)
+theorem keepPartial_partial {α : Type} [DecidableEq α] [Inhabited α] {File : Type} (v : V2 α File) (o : Opts) (ft : Fault) (nm : α) (d : Disk α File)
     (hft : ft ≠ .write 0) : migrate keepPartial v o ft nm d = migrate good v o ft nm d := by
   simp only [migrate, keepPartial, good]
   cases ft with
@@ -300,6 +439,74 @@ theorem keepPartial_partial {File : Type} (v : V2 File) (o : Opts) (ft : Fault) 
     | zero => exact absurd rfl hft
     | succ n => rfl
   | _ => rfl
+
+/-- an unreadable meta file is only logged: the migration goes on and writes a .hyd without the swamp name;
+    with `DeleteOld` the meta file — the only copy of the name — is then deleted -/
+def nameDropped : MCfg := { good with metaErrorAborts := false }
+
+theorem nameDropped_witness :
+    let r := migrate nameDropped idV2 ⟨true, true, false⟩ .metaRead "s/r/n" exDisk
+    r.1 = .success ∧ r.2.v1 = [] ∧ r.2.hyd.map (·.1) = some "" := by decide
+
+theorem refutes_nameDropped : ¬ Holds nameDropped := by
+  intro h
+  have := h.nameNotDropped (idV2 : V2 String _) ⟨true, true, false⟩ "s/r/n" exDisk
+  exact absurd this (by decide)
+
+theorem nameDropped_partial {α : Type} [DecidableEq α] [Inhabited α] {File : Type} (v : V2 α File) (o : Opts) (ft : Fault)
+    (nm : α) (d : Disk α File) (hft : ft ≠ .metaRead) : migrate nameDropped v o ft nm d = migrate good v o ft nm d := by
+  simp only [migrate, nameDropped, good, hft, dedupe, verifyOk]
+  simp
+
+/-- `writeV2File` on a target path that is not free.  `NewFileWriterWithName` opens a file that exists for
+    appending: its header — and with it its swamp name — stays, its records stay under the appended ones.  A
+    later `WriteEntry` / `Close` error or a failed verification then `os.Remove`s the file: the one that was there
+    before the run.  (How a file gets there: an earlier run without `DeleteOld`, after which the V2 engine has been
+    writing to it; an interrupted run; a file put there.) -/
+def appendsExisting : MCfg := { good with refusesExisting := false }
+
+def preFile : String × List (Entry String) := ("other/swamp/name", [("k1", "written-by-the-v2-engine-since"), ("zz", "only-in-v2")])
+def preDisk : Disk String (String × List (Entry String)) := { v1 := exFolder, v1Folder := true, hyd := some preFile }
+
+/-- success is reported, the V1 folder is deleted — and the file loads a record the legacy engine never had,
+    under another swamp's name -/
+theorem appendsExisting_mixes :
+    let r := migrate appendsExisting idV2 ⟨true, true, false⟩ .none "s/r/n" preDisk
+    r.1 = .success ∧ r.2.v1 = [] ∧ (r.2.hyd.map fun f => (idV2.nameOf f, idV2.loadMap f "zz", idV2.loadMap f "k1"))
+      = some ("other/swamp/name", some "only-in-v2", some "v1") := by decide
+
+/-- a failing block write, or a failing verification, removes the file that was there before the run -/
+theorem appendsExisting_destroys :
+    (migrate appendsExisting idV2 ⟨true, false, false⟩ (.write 1) "s/r/n" preDisk).2.hyd = none ∧
+    (migrate appendsExisting idV2 ⟨true, false, false⟩ .verify "s/r/n" preDisk).2.hyd = none := by decide
+
+theorem refutes_appendsExisting : ¬ Holds appendsExisting := by
+  intro h
+  have := (h.existingKept idV2 ⟨true, true, false⟩ .none "s/r/n" preDisk preFile rfl).2 (by decide)
+  exact absurd this (by decide)
+
+/-- `_partial`: on a free target path — every first migration — `appendsExisting` is the good migrator -/
+theorem appendsExisting_partial {α : Type} [DecidableEq α] [Inhabited α] {File : Type} (v : V2 α File) (o : Opts) (ft : Fault)
+    (nm : α) (d : Disk α File) (h0 : d.hyd = none) : migrate appendsExisting v o ft nm d = migrate good v o ft nm d := by
+  obtain ⟨v1, fol, hyd⟩ := d
+  simp only at h0
+  subst h0
+  simp only [migrate, appendsExisting, good, dedupe, verifyOk]
+  rfl
+
+/-- the good migrator on the same disk: reports the swamp as failed and touches nothing -/
+theorem good_refuses_existing :
+    let r := migrate good idV2 ⟨true, true, false⟩ .none "s/r/n" preDisk
+    r.1 = .failed "write" ∧ r.2.v1 = exFolder ∧ r.2.hyd = some preFile := by decide
+
+/-- a V1 record whose key the V2 format cannot carry (an empty key fails the load phase before; here: a writer
+    that refuses the key "k2", as `WriteEntry` refuses a key longer than 65535 bytes — `Hv.MigrateV2.long_key_refused`):
+    the swamp fails in phase "write", nothing is dropped, nothing is left behind, the V1 folder stays -/
+def pickyV2 : V2 String (String × List (Entry String)) := { (idV2 : V2 String _) with accepts := fun e => e.1 != "k2" }
+
+theorem unstorable_key_aborts :
+    let r := migrate good pickyV2 ⟨true, true, false⟩ .none "s/r/n" exDisk
+    r.1 = .failed "write" ∧ r.2.v1 = exFolder ∧ r.2.hyd = none := by decide
 
 /-! ### The V1 writer's chunk-overflow path (`writeNewTreasures`)
 
@@ -314,12 +521,12 @@ theorem keepPartial_partial {File : Type} (v : V2 File) (o : Opts) (ft : Fault) 
 namespace Overflow
 
 structure St where
-  chunks   : List (List Seg)        -- oldest first; the last one is the actual chunk
+  chunks   : List (List (Seg String))        -- oldest first; the last one is the actual chunk
   pointers : List String            -- keys whose chunk the swamp knows
   deriving Repr, DecidableEq
 
 /-- `recordsOverflowKey`: the repaired behaviour (record the pointer before `break`) -/
-def writeNew (recordsOverflowKey : Bool) (max : Nat) : St → List Seg → St
+def writeNew (recordsOverflowKey : Bool) (max : Nat) : St → List (Seg String) → St
   | st, [] => st
   | st, s :: rest =>
     let cur := st.chunks.getLastD []
@@ -334,7 +541,7 @@ def writeNew (recordsOverflowKey : Bool) (max : Nat) : St → List Seg → St
       writeNew recordsOverflowKey max { chunks := init ++ [cur'], pointers := s.key :: st.pointers } rest
 
 /-- a save: treasures whose chunk is known are rewritten in place, the others are appended as new -/
-def save (rec : Bool) (max : Nat) (st : St) (batch : List Seg) : St :=
+def save (rec : Bool) (max : Nat) (st : St) (batch : List (Seg String)) : St :=
   let known := batch.filter (fun s => st.pointers.contains s.key)
   let fresh := batch.filter (fun s => !st.pointers.contains s.key)
   let st1 : St := { st with chunks := st.chunks.map (fun c => c.map (fun x =>
@@ -367,7 +574,9 @@ structure Facts where
   removeOnWriteFail  : Tri    -- `os.Remove(filePath)` in both error branches of `writeV2File`
   removeOnOpenFail   : Tri    -- nothing is left when `NewFileWriterWithName` fails after creating the file
   emptyKeyIsError    : Tri
+  metaErrorAborts    : Tri    -- a failing `loadSwampNameFromMeta` (other than: no meta file) fails the migration
   verifyValues       : Tri    -- `verifyMigration` looks at entry data (currently: keys only)
+  refusesExisting    : Tri    -- `migrateSwamp` fails the swamp before `writeV2File` when the target path is not free
   skipsZeroLength    : Tri    -- `parseV1Segments`: `if length == 0 { continue }`
   nameFromMeta       : Tri    -- the name written into the .hyd header comes from the meta file
   v1LoadIteratesMap  : Tri    -- legacy `Load` ranges over a Go map of file contents
@@ -375,11 +584,12 @@ structure Facts where
 
 def cfgOf (f : Facts) : MCfg :=
   ⟨f.dedupeLast.isYes, f.verifyBeforeDelete.isYes, f.writeBeforeDelete.isYes, f.removeOnVerifyFail.isYes,
-   f.removeOnWriteFail.isYes, f.removeOnOpenFail.isYes, f.emptyKeyIsError.isYes, f.verifyValues.isYes⟩
+   f.removeOnWriteFail.isYes, f.removeOnOpenFail.isYes, f.emptyKeyIsError.isYes, f.metaErrorAborts.isYes, f.verifyValues.isYes,
+   f.refusesExisting.isYes⟩
 
 def anyUnknown (f : Facts) : Bool :=
   [f.dedupeLast, f.writeBeforeDelete, f.verifyBeforeDelete, f.removeOnVerifyFail, f.removeOnWriteFail, f.removeOnOpenFail,
-   f.emptyKeyIsError, f.verifyValues, f.skipsZeroLength, f.nameFromMeta, f.v1LoadIteratesMap].any (· == .unknown)
+   f.emptyKeyIsError, f.metaErrorAborts, f.verifyValues, f.refusesExisting, f.skipsZeroLength, f.nameFromMeta, f.v1LoadIteratesMap].any (· == .unknown)
 
 def classify (f : Facts) : Verdict :=
   if anyUnknown f then .undetermined "a-migrator-pattern-was-not-recognised"
@@ -389,6 +599,8 @@ def classify (f : Facts) : Verdict :=
   else if cfgOf f = dedupeFirst then .violated ["C23-dedupe-keeps-first"]
   else if cfgOf f = keepHyd then .violated ["C23-hyd-left-after-failed-verify"]
   else if cfgOf f = keepPartial then .violated ["C23-hyd-left-after-failed-create"]
+  else if cfgOf f = nameDropped then .violated ["C23-name-lost-when-meta-unreadable"]
+  else if cfgOf f = appendsExisting then .violated ["C23-existing-hyd-appended"]
   else .undetermined "no-theorem-covers-this-combination-of-migrator-facts"
 
 theorem classify_sound (f : Facts) : (classify f).Sound (Holds (cfgOf f)) := by
@@ -407,6 +619,10 @@ theorem classify_sound (f : Facts) : (classify f).Sound (Holds (cfgOf f)) := by
             · rename_i h; rw [h]; exact ⟨refutes_keepHyd, trivial⟩
             · split
               · rename_i h; rw [h]; exact ⟨refutes_keepPartial, trivial⟩
-              · trivial
+              · split
+                · rename_i h; rw [h]; exact ⟨refutes_nameDropped, trivial⟩
+                · split
+                  · rename_i h; rw [h]; exact ⟨refutes_appendsExisting, trivial⟩
+                  · trivial
 
 end Hv.C23
